@@ -746,8 +746,24 @@ func (w *Walker) callInternal(call *ast.CallExpr, fn *FuncInfo, st *State, nres 
 			if len(ts) > 0 && cl.RetField != "" {
 				ts[0] = mkTerm(KField, cl.RetField)
 			}
-			// post facts
+			// post facts (parameter terms stand for the arguments' values at the call)
+			var psub map[string]*Term
 			for _, l := range cl.Post {
+				if hasParamTerm(l.A.A) || hasParamTerm(l.A.B) {
+					if psub == nil {
+						psub = map[string]*Term{}
+						for j, p := range fn.Params {
+							if j < len(args[i]) && args[i][j] != nil {
+								psub["p:"+p.Name()] = args[i][j]
+							}
+						}
+					}
+					if !paramsCovered(l.A.A, psub) || !paramsCovered(l.A.B, psub) {
+						continue
+					}
+					ns.F.add(Lit{substAtomByS(l.A, psub), l.Pos})
+					continue
+				}
 				ns.F.add(l)
 			}
 			out = append(out, callRes{ns, ts})
@@ -961,8 +977,12 @@ func (w *Walker) inlineCall(fn *FuncInfo, recv *Term, args []*Term, st *State, n
 		}
 	}
 	if pure {
-		// only counting helpers are worth inlining: their results carry quorum / existence terms
+		// only counting helpers are worth inlining: their results carry quorum / existence terms; and duration
+		// helpers, whose result the timer rules read structurally
 		useful := false
+		if sig := fn.Obj.Type().(*types.Signature); sig.Results().Len() == 1 && namedName(sig.Results().At(0).Type()) == "Duration" {
+			useful = true
+		}
 		for _, o := range out {
 			for _, t := range o.ts {
 				if t != nil && (t.K == KCount || t.K == KExists) {
